@@ -27,15 +27,21 @@ class Timeout(Exception):
 
 @contextmanager
 def time_limit(seconds):
+    """Raises Timeout after `seconds` of CPU time of this process (ITIMER_PROF: independent of how loaded the machine
+    is, so a busy host cannot turn a slow case into an alarm), or after 10x that in wall-clock time (a blocked call)."""
     def handler(signum, frame):
         raise Timeout()
-    old = signal.signal(signal.SIGALRM, handler)
-    signal.setitimer(signal.ITIMER_REAL, seconds)
+    old_alrm = signal.signal(signal.SIGALRM, handler)
+    old_prof = signal.signal(signal.SIGPROF, handler)
+    signal.setitimer(signal.ITIMER_PROF, seconds)
+    signal.setitimer(signal.ITIMER_REAL, 10 * seconds)
     try:
         yield
     finally:
+        signal.setitimer(signal.ITIMER_PROF, 0)
         signal.setitimer(signal.ITIMER_REAL, 0)
-        signal.signal(signal.SIGALRM, old)
+        signal.signal(signal.SIGALRM, old_alrm)
+        signal.signal(signal.SIGPROF, old_prof)
 
 
 def run_cmd(cmd, cwd=None, timeout=3600, env=None):
